@@ -45,6 +45,15 @@ def run(chk):
                     '(induction on the invariant: reserves >= 1, reserves <= 2^127)')
     BM.CONFIG['symbolic_ops'] = True
     it.arith_feasibility = True
+    import os
+    only = os.environ.get('VERIF_ONLY')  # development aid: one kernel alone (never a registered command)
+    if only in ('swap', 'deposit', 'withdraw'):
+        try:
+            chk.guard({'swap': swap_kernel, 'deposit': deposit_kernel, 'withdraw': withdraw_kernel}[only], chk, it)
+        finally:
+            BM.CONFIG['symbolic_ops'] = False
+            it.arith_feasibility = False
+        return
     try:
         chk.guard(swap_kernel, chk, it)
         chk.guard(deposit_kernel, chk, it)
@@ -58,6 +67,9 @@ def run(chk):
     # whose (single) output is an unspent coin of the pool's liquidity-token denomination
     from props import c15
     chk.guard(c15.selectors, chk, it, only=('withdrawal',))
+    # ... and that a pool named by several requests of a block is settled once: settling it twice burns the recorded liquidity
+    # twice for tokens that are burnt once
+    chk.guard(c15.pool_list_kernel, chk, it)
 
 
 def _ranges(p, lo=1):
@@ -69,19 +81,24 @@ def swap_kernel(chk, it):
     st = State()
     pool, p = sym_pool()
     dl, dr = z3.BitVec('in_lefts', 128), z3.BitVec('in_rights', 128)
-    st.pc += _ranges(p) + [z3.ULT(dl, CAP), z3.ULT(dr, CAP)]
+    # reserves may be EMPTY: a user-created pool can be withdrawn completely, or start from a deposit of (x, 0).  The exact
+    # panic region of swap_many is decided here; the settlement code has to stay out of it (C09)
+    st.pc += _ranges(p, lo=0) + [z3.ULT(dl, CAP), z3.ULT(dr, CAP)]
     cell = st.alloc(pool)
     outs = it.exec_fn(st, melstructs_fn(it, 'swap_many'), [Ptr(cell), dl, dr])
     inputs = dict(p, in_lefts=dl, in_rights=dr)
     L, R = p['lefts'], p['rights']
+    priced = z3.And(z3.UGE(L + dl, 1), z3.UGE(R + dr, 1))  # both reserves non-empty once the batch is paid in
     n = 0
     for idx, (s, o) in enumerate(outs):
         rp = lambda mo: replay_pool(chk, mo, inputs, 'swap_many', 'in_lefts', 'in_rights')
         if isinstance(o, Panic):
-            chk.obligation('PANIC/swap_many/%d' % idx, list(s.pc), z3.BoolVal(False), inputs, replay=rp, kind='PANIC',
-                           describe=str(o), bound='reserves in [1, 2^127], amounts < 2^127', arith='int')
+            chk.obligation('PANIC/swap_many/%d' % idx, list(s.pc) + [priced], z3.BoolVal(False), inputs, replay=rp, kind='PANIC',
+                           describe=str(o), bound='reserves in [0, 2^127], amounts < 2^127, neither reserve empty after paying in', arith='int')
             continue
         n += 1
+        chk.obligation('FUNC/swap_many-returns-only-with-both-reserves-non-empty/swap_many/%d' % idx, list(s.pc), priced, inputs, replay=None,
+                       bound='outside this region swap_many divides by zero (the exact panic region the callers must avoid)', arith='int')
         lw, rw = o.v.fields
         post = s.heap[cell]
         L2, R2, PA2, LQ2 = post.fields
@@ -94,7 +111,7 @@ def swap_kernel(chk, it):
                        bound='both sides of a batch settle at the one post-deposit price')
         chk.obligation('FUNC/reserves-move-by-what-was-paid-in-and-out/' + name, list(s.pc) + [bound_c], moves, inputs, replay=rp, arith='int')
         lem = list(s.pc) + [bound_c, moves]
-        chk.obligation('FUNC/reserves-stay-non-zero/' + name, lem, z3.And(z3.UGE(L2, 1), z3.UGE(R2, 1)), inputs, replay=rp,
+        chk.obligation('FUNC/reserves-stay-non-zero/' + name, lem + [z3.UGE(L, 1), z3.UGE(R, 1)], z3.And(z3.UGE(L2, 1), z3.UGE(R2, 1)), inputs, replay=rp,
                        bound='one swap batch against a pool with non-zero reserves', arith='int')
         chk.obligation('FUNC/reserve-product-never-decreases/' + name, lem,
                        (I(L) + I(dl) - I(lw)) * (I(R) + I(dr) - I(rw)) >= I(L) * I(R), inputs, replay=rp, arith='int')
@@ -112,18 +129,23 @@ def deposit_kernel(chk, it):
     st = State()
     pool, p = sym_pool()
     dl, dr = z3.BitVec('in_lefts', 128), z3.BitVec('in_rights', 128)
-    st.pc += _ranges(p) + [z3.ULT(dl, CAP), z3.ULT(dr, CAP), z3.UGE(p['liqs'], 1), z3.ULE(p['liqs'], CAP)]
+    # a pool with liquidity may still have an EMPTY reserve (first deposit of (x, 0)): the exact panic region of deposit
+    st.pc += _ranges(p, lo=0) + [z3.ULT(dl, CAP), z3.ULT(dr, CAP), z3.UGE(p['liqs'], 1), z3.ULE(p['liqs'], CAP)]
     cell = st.alloc(pool)
     outs = it.exec_fn(st, melstructs_fn(it, 'deposit'), [Ptr(cell), dl, dr])
     inputs = dict(p, in_lefts=dl, in_rights=dr)
     L, R, LQ = p['lefts'], p['rights'], p['liqs']
+    both = z3.And(z3.UGE(L, 1), z3.UGE(R, 1))
     n = 0
     for idx, (s, o) in enumerate(outs):
         rp = lambda mo: replay_pool(chk, mo, inputs, 'deposit', 'in_lefts', 'in_rights')
         if isinstance(o, Panic):
-            chk.obligation('PANIC/deposit/%d' % idx, list(s.pc), z3.BoolVal(False), inputs, replay=rp, kind='PANIC',
+            chk.obligation('PANIC/deposit/%d' % idx, list(s.pc) + [both], z3.BoolVal(False), inputs, replay=rp, kind='PANIC',
                            describe=str(o), bound='reserves in [1, 2^127], liqs in [1, 2^127], amounts < 2^127', arith='int')
             continue
+        chk.obligation('FUNC/deposit-into-a-pool-with-liquidity-returns-only-with-both-reserves-non-empty/deposit/%d' % idx, list(s.pc), both,
+                       inputs, replay=None, bound='outside this region deposit divides by zero (the panic region the callers must avoid)', arith='int')
+        s.pc.append(both)
         n += 1
         delta = o.v
         L2, R2, PA2, LQ2 = s.heap[cell].fields
@@ -162,7 +184,8 @@ def withdraw_kernel(chk, it):
     pool, p = sym_pool()
     w = z3.BitVec('burnt_liqs', 128)
     L, R, LQ = p['lefts'], p['rights'], p['liqs']
-    st.pc += _ranges(p) + [z3.UGE(LQ, 1), z3.ULE(LQ, CAP)]
+    # a pool may have been withdrawn completely (liqs == 0, reserves 0): the exact panic region of withdraw
+    st.pc += _ranges(p, lo=0) + [z3.ULE(LQ, CAP)]
     cell = st.alloc(pool)
     outs = it.exec_fn(st, melstructs_fn(it, 'withdraw'), [Ptr(cell), w])
     inputs = dict(p, burnt_liqs=w)
@@ -171,10 +194,13 @@ def withdraw_kernel(chk, it):
         rp = lambda mo: replay_pool(chk, mo, inputs, 'withdraw', 'burnt_liqs', None)
         if isinstance(o, Panic):
             # withdraw asserts self.liqs >= liqs: unreachable exactly when the tokens in circulation are backed (w <= liqs)
-            chk.obligation('PANIC/withdraw/%d' % idx, list(s.pc) + [z3.ULE(w, LQ)], z3.BoolVal(False), inputs, replay=rp, kind='PANIC',
-                           describe=str(o), bound='burnt liquidity <= recorded liquidity (the backing invariant)', arith='int')
+            chk.obligation('PANIC/withdraw/%d' % idx, list(s.pc) + [z3.ULE(w, LQ), z3.UGE(LQ, 1)], z3.BoolVal(False), inputs, replay=rp, kind='PANIC',
+                           describe=str(o), bound='burnt liquidity <= recorded liquidity (the backing invariant), pool has liquidity', arith='int')
             continue
         n += 1
+        chk.obligation('FUNC/withdraw-returns-only-from-a-pool-with-liquidity/withdraw/%d' % idx, list(s.pc), z3.UGE(LQ, 1), inputs, replay=None,
+                       bound='withdraw(0) from a pool without liquidity divides 0 by 0 (the panic region the callers must avoid)', arith='int')
+        s.pc.append(z3.UGE(LQ, 1))
         lo, ro = o.v.fields
         L2, R2, PA2, LQ2 = s.heap[cell].fields
         name = 'withdraw/%d' % idx
@@ -183,7 +209,7 @@ def withdraw_kernel(chk, it):
         chk.obligation('FUNC/withdrawal-pays-the-rounded-down-share/' + name, list(s.pc) + [z3.ULT(w, LQ)],
                        z3.And(I(lo) * I(LQ) <= I(L) * I(w), (I(lo) + 1) * I(LQ) > I(L) * I(w),
                               I(ro) * I(LQ) <= I(R) * I(w), (I(ro) + 1) * I(LQ) > I(R) * I(w)), inputs, replay=rp, arith='int')
-        chk.obligation('FUNC/partial-withdrawal-leaves-non-zero-reserves/' + name, list(s.pc) + [z3.ULT(w, LQ)],
+        chk.obligation('FUNC/partial-withdrawal-leaves-non-zero-reserves/' + name, list(s.pc) + [z3.ULT(w, LQ), z3.UGE(L, 1), z3.UGE(R, 1)],
                        z3.And(z3.UGE(L2, 1), z3.UGE(R2, 1), z3.UGE(LQ2, 1)), inputs, replay=rp, arith='int',
                        bound='a built-in pool keeps 10^9 liquidity owned by nobody, so it is never withdrawn completely')
         # reachability witness handed to the solver (a ground check; finding one from scratch is a non-linear search that takes
